@@ -456,7 +456,7 @@ class BaseInput:
 
         # If file is already a DataFrame
         if isinstance(file, pd.DataFrame):
-            self._dataframe = file.astype(str)
+            self._dataframe = file.astype(str).reset_index(drop=True)
             self._has_column_names = self._dataframe_has_names(self._dataframe)
             return
 
